@@ -31,11 +31,11 @@ import (
 // the helper's objects). go/ssa is built from the unmodified trees first. On the reference tree there is no new
 // function and this pass does nothing.
 type inlineState struct {
-	p     *Prog
-	isNew map[*types.Func]*FuncInfo
+	p        *Prog
+	isNew    map[*types.Func]*FuncInfo
 	tailOnly map[*types.Func]bool // helpers with defer / recover: inlined only where their return is the caller's return
-	n     int
-	notes []string
+	n        int
+	notes    []string
 }
 
 func (p *Prog) applyInlining() {
@@ -929,7 +929,6 @@ func copyInfo(info *types.Info, mapping map[ast.Node]ast.Node) {
 	}
 }
 
-
 // pureExpr: a name, a selector chain on one, its address or dereference, a basic literal, nil/true/false.
 func pureExpr(e ast.Expr) bool {
 	switch x := ast.Unparen(e).(type) {
@@ -1005,7 +1004,6 @@ func substituteObj(info *types.Info, root ast.Node, obj types.Object, repl ast.E
 	}, nil)
 }
 
-
 // unifyResults: the statement `x1, x2 := helper(…)` whose inlined copy (pre) ends with the result expressions
 // y1, y2 – distinct locals of the helper – is expressed by renaming y_i to x_i inside the copy.
 func unifyResults(info *types.Info, as *ast.AssignStmt, results []ast.Expr, helper *FuncInfo, pre []ast.Stmt) bool {
@@ -1065,7 +1063,6 @@ func unifyResults(info *types.Info, as *ast.AssignStmt, results []ast.Expr, help
 	}
 	return true
 }
-
 
 func initOf(s ast.Stmt) ast.Stmt {
 	switch x := s.(type) {
